@@ -2,6 +2,7 @@ package bgp
 
 import (
 	"fmt"
+	"net"
 	"time"
 
 	bnet "github.com/bio-routing/bio-rd/net"
@@ -45,6 +46,19 @@ func NewDUT(env *Env, cfg DUTCfg) *DUT {
 	d := &DUT{env: env, Cfg: cfg, VRF: v, LM: newSimLM(), RIB4: r4, RIB6: r6}
 	d.Srv = server.NewBGPServer(server.BGPServerConfig{RouterID: cfg.RouterID, DefaultVRF: v})
 	d.Srv.SetListenerManager(d.LM)
+	// outgoing connections of active peers end at the scripted neighbour marked as dial target
+	server.VerifDialHook = func(l, r *net.TCPAddr) (net.Conn, error) {
+		for _, p := range d.Peers {
+			if p.Cfg.DialTarget && p.TCPAddr(0).IP.Equal(r.IP) {
+				env.probe("dut_dialled_out")
+				if p.RefuseDial {
+					return nil, fmt.Errorf("simnet: connection refused")
+				}
+				return p.acceptFromDUT(), nil
+			}
+		}
+		return nil, fmt.Errorf("simnet: no route to host %v", r)
+	}
 	d.Srv.Start()
 	env.Sim.Settle()
 	return d
@@ -58,7 +72,7 @@ func (c PeerCfg) bnetAddr() *bnet.IP {
 func (d *DUT) PeerConfig(c PeerCfg) server.PeerConfig {
 	pc := server.PeerConfig{
 		AdminEnabled:            true,
-		ReconnectInterval:       0,
+		ReconnectInterval:       time.Duration(c.ReconnectUS) * time.Microsecond,
 		KeepAlive:               time.Duration(c.DUTHold) * time.Second / 3,
 		HoldTime:                time.Duration(c.DUTHold) * time.Second,
 		LocalAddress:            dutLocalIP.Dedup(),
@@ -92,10 +106,12 @@ func (d *DUT) PeerConfig(c PeerCfg) server.PeerConfig {
 
 // AddPeer configures a neighbour on the DUT and creates its scripted peer.
 func (d *DUT) AddPeer(c PeerCfg) (*Peer, error) {
-	if err := d.Srv.AddPeer(d.PeerConfig(c)); err != nil {
-		return nil, err
+	if !c.Shadow {
+		if err := d.Srv.AddPeer(d.PeerConfig(c)); err != nil {
+			return nil, err
+		}
 	}
-	p := &Peer{env: d.env, dut: d, Cfg: c, Idx: len(d.Peers), AutoOpen: true}
+	p := &Peer{env: d.env, dut: d, Cfg: c, Idx: len(d.Peers), AutoOpen: !c.ManualOpen}
 	d.Peers = append(d.Peers, p)
 	d.env.Sim.Settle()
 	return p, nil
